@@ -14,6 +14,8 @@ mod gen {
 mod proj;
 mod dump;
 mod decoder;
+mod ggen;
+mod parser;
 
 fn main() {
     util::install_panic_hook();
@@ -26,6 +28,7 @@ fn main() {
     match args[1].as_str() {
         "dump-grammar" => dump::dump_grammar(rest),
         "drive-decoder" => decoder::drive(rest),
+        "drive-parser" => parser::drive(rest),
         other => {
             eprintln!("vh: unknown subcommand {}", other);
             std::process::exit(2);
